@@ -39,6 +39,7 @@ type Item struct {
 	Held   bool   // some honest node holds it (and would gossip it on)
 	ckey   string // claim key of a vote (round/type/block), precomputed
 	seq    int
+	born   int // step at which the artefact came into existence (policy: delayed links)
 }
 
 func (it *Item) String() string {
@@ -71,6 +72,7 @@ type blockRef struct {
 }
 
 type Pool struct {
+	now      func() int // current step
 	items    []*Item
 	byID     map[string]*Item
 	byH      map[int64][]*Item
@@ -97,6 +99,9 @@ func (p *Pool) add(it *Item) *Item {
 		return old
 	}
 	it.seq = len(p.items)
+	if p.now != nil {
+		it.born = p.now()
+	}
 	p.items = append(p.items, it)
 	p.byID[it.ID] = it
 	p.byH[it.H] = append(p.byH[it.H], it)
